@@ -20,6 +20,13 @@ def spec_text_match(el, value):
     return (not matches) if negate else matches
 
 
+def text_match_supported(el):
+    c = xml_attr(el, "collation") if xml_attr(el, "collation") is not None else "i;ascii-casemap"
+    k = xml_attr(el, "match-type") if xml_attr(el, "match-type") is not None else "contains"
+    return ((c == "i;ascii-casemap" or c == "i;octet" or c == "i;unicode-casemap")
+            and (k == "equals" or k == "contains" or k == "starts-with" or k == "ends-with"))
+
+
 @contract("xandikos.carddav.apply_text_match", params={"el": "opaque:Element", "value": "str"}, returns="bool")
 class apply_text_match_c:
     """Total on every text value (non-ASCII included): the only exceptions are an unsupported
@@ -37,3 +44,124 @@ class apply_text_match_c:
 
     def ensures(el, value, result):
         return result == spec_text_match(el, value)
+
+    def value(el, value):
+        # functional form, for uses inside any()/all() over a symbolic sequence
+        return spec_text_match(el, value)
+
+
+opaque("ContentLine", attrs={"params": "dict[str,list[str]]"})
+
+IS_NOT_DEFINED = "{urn:ietf:params:xml:ns:carddav}is-not-defined"
+TEXT_MATCH = "{urn:ietf:params:xml:ns:carddav}text-match"
+PARAM_FILTER = "{urn:ietf:params:xml:ns:carddav}param-filter"
+
+
+def only_is_not_defined(el):
+    return len(el) == 1 and el[0].tag == "{urn:ietf:params:xml:ns:carddav}is-not-defined"
+
+
+def rendered(prop):
+    """The text a prop-filter's text-match is applied to.  The code uses str(content_line);
+    RFC 6352 means the property *value* - recorded as a known finding (DESIGN 6/C12), the
+    contract is stated over this rendering function."""
+    return str(prop)
+
+
+ghost("sub_ok", ["opaque:Element", "opaque:ContentLine"], "bool")
+
+
+def sub_matches(subel, prop):
+    # named by the ghost predicate sub_ok (definition: apply_prop_filter_c.define_sub_ok)
+    return sub_ok(subel, prop)
+
+
+def sub_matches_def(subel, prop):
+    return (spec_text_match(subel, rendered(prop)) if subel.tag == "{urn:ietf:params:xml:ns:carddav}text-match"
+            else spec_param_filter(subel, prop) if subel.tag == "{urn:ietf:params:xml:ns:carddav}param-filter"
+            else True)
+
+
+def spec_param_filter(el, prop):
+    name = xml_attr(el, "name")
+    return ((name is None or name not in prop.params) if only_is_not_defined(el)
+            else (name is not None and name in prop.params
+                  and all(any(spec_text_match(subel, v) for v in prop.params[name]) for subel in el)))
+
+
+ghost("inst_ok", ["opaque:Element", "opaque:ContentLine"], "bool")
+
+
+def instance_matches(el, prop):
+    # all listed conditions must hold for this property instance (the code's reading; the
+    # prop-filter `test` attribute is not looked at: known finding).  inst_ok names this
+    # formula (definition: apply_prop_filter_c.define_inst_ok) so that the outer loop's
+    # invariant is free of nested quantifiers.
+    return inst_ok(el, prop)
+
+
+def instance_matches_def(el, prop):
+    return all(sub_matches(subel, prop) for subel in el)
+
+
+def spec_prop_filter(el, ab):
+    name = xml_attr(el, "name").lower()
+    return ((name not in ab) if only_is_not_defined(el)
+            else (name in ab and any(instance_matches(el, p) for p in ab[name])))
+
+
+@contract("xandikos.carddav.apply_param_filter", params={"el": "opaque:Element", "prop": "opaque:ContentLine"},
+          returns="bool", may_raise=["KeyError", "NotImplementedError"])
+class apply_param_filter_c:
+    def requires(el):
+        # a well-formed request: only text-match children, with supported collation / match type
+        # (anything else is answered with an error by the caller's exception handling)
+        return (xml_attr(el, "name") is not None
+                and (only_is_not_defined(el)
+                     or all(subel.tag == "{urn:ietf:params:xml:ns:carddav}text-match" and text_match_supported(subel)
+                            for subel in el)))
+
+    def ensures(el, prop, result):
+        return result == spec_param_filter(el, prop)
+
+    def inv_0(el, prop, value, _i, _seq):
+        return (value == prop.params[xml_attr(el, "name")]
+                and all(any(spec_text_match(s, v) for v in value) for s in _seq[:_i]))
+
+
+@contract("xandikos.carddav.apply_prop_filter",
+          params={"el": "opaque:Element", "ab": "dict[str,list[opaque:ContentLine]]"}, returns="bool",
+          locals={"matched": "bool"}, may_raise=["KeyError", "NotImplementedError"])
+class apply_prop_filter_c:
+    """RFC 6352 10.5.1: is-not-defined <=> no such property; otherwise some instance of the
+    property satisfies the listed text-match / param-filter conditions."""
+
+    def requires(el):
+        return (xml_attr(el, "name") is not None
+                and (only_is_not_defined(el)
+                     or all(well_formed_sub(subel) for subel in el)))
+
+    def ensures(el, ab, result):
+        return result == spec_prop_filter(el, ab)
+
+    def inv_0(el, ab, prop, _i, _seq):
+        return not any(instance_matches(el, p) for p in _seq[:_i])
+
+    def define_inst_ok(el):
+        return forall("opaque:ContentLine", lambda p: inst_ok(el, p) == instance_matches_def(el, p))
+
+    def define_sub_ok(el):
+        return forall("opaque:Element", "opaque:ContentLine", lambda s, p: sub_ok(s, p) == sub_matches_def(s, p))
+
+    def inv_1(el, ab, prop, prop_el, matched, _i, _seq):
+        return matched == all(sub_matches(s, prop_el) for s in _seq[:_i]) and matched
+
+
+def well_formed_sub(subel):
+    return ((subel.tag == "{urn:ietf:params:xml:ns:carddav}text-match" and text_match_supported(subel))
+            or (subel.tag == "{urn:ietf:params:xml:ns:carddav}param-filter" and xml_attr(subel, "name") is not None
+                and (only_is_not_defined(subel)
+                     or all(s2.tag == "{urn:ietf:params:xml:ns:carddav}text-match" and text_match_supported(s2)
+                            for s2 in subel)))
+            or (subel.tag != "{urn:ietf:params:xml:ns:carddav}text-match"
+                and subel.tag != "{urn:ietf:params:xml:ns:carddav}param-filter"))
